@@ -44,6 +44,7 @@ type Profile struct {
 	SmallBalances bool
 	PolicyHeavy   bool // plans / projects carry chain policies and selected-provider lists
 	TightCU       bool // project total CU limits below subscription CU
+	Prologue      func(s *Sim) // directed opening of the history, run after BuildWorld
 }
 
 func defaultWeights() map[string]int {
@@ -925,8 +926,9 @@ func polStr(p *planstypes.Policy) string {
 
 // ---------------------------------------------------------------- governance ops
 
-func (s *Sim) opPlanAdd() {
-	idx := vrandPick(s, s.Plans)
+func (s *Sim) opPlanAdd() { s.opPlanAddFor(vrandPick(s, s.Plans)) }
+
+func (s *Sim) opPlanAddFor(idx string) {
 	pl := s.planTemplate(idx)
 	// a new version: change price / CU a little
 	pl.Price = s.coin(pl.Price.Amount.Int64() + int64(s.R.Intn(5))*10)
@@ -1272,3 +1274,38 @@ func sortedKeys[V any](m map[string]V) []string {
 }
 
 var _ = sdkmath.NewInt
+
+// prologueFailedRenewal is a directed opening for the subscription profiles: an auto-renewing subscription whose
+// creator cannot pay the renewal, on a plan that governance modifies before and after the failed renewal, next to
+// a long-lived subscription on the version in between; then idle time beyond the fixation stale period. Every step
+// goes through the ordinary ops (so the monitors see ordinary txs); the generated history continues from there.
+func prologueFailedRenewal(s *Sim) {
+	plan := "tight"
+	price := s.planTemplate(plan).Price.Amount.Int64()
+	mk := func(balance int64) *Cons {
+		acc := s.newAccount(balance)
+		c := &Cons{Acc: acc, Addr: acc.Addr.String()}
+		for d := 0; d < 2; d++ {
+			c.Devs = append(c.Devs, s.newAccount(10000))
+		}
+		s.Cons = append(s.Cons, c)
+		return c
+	}
+	poor := mk(price + price/2) // pays one month, cannot pay the renewal
+	rich := mk(bigBalance)
+	bought := s.TS.Ctx.BlockTime()
+	if r := s.doBuy(poor, poor, plan, 1, true, false); !r.OK() {
+		return
+	}
+	s.opPlanAddFor(plan)
+	s.NextEpoch()
+	s.doBuy(rich, rich, plan, 3, false, false) // holds the version in between
+	s.NextEpoch()
+	s.AdvanceTo(utils.NextMonth(bought).Add(2 * time.Hour)) // the renewal instant of the poor subscription passes
+	s.opPlanAddFor(plan)
+	s.NextEpoch()
+	// idle beyond the stale period of the plans fixation store
+	for i := 0; i < 12 && !s.Halted; i++ {
+		s.NextEpoch()
+	}
+}
